@@ -63,7 +63,7 @@ func main() {
 	}
 	if *flagList {
 		for _, r := range allRules {
-			fmt.Printf("%s\t%s\tfloor=%d\t%s\n", r.Prop, r.ID, r.Floor, r.Doc)
+			fmt.Printf("%s\t%s\tfloor=%d\t%s\talso=%s\n", r.Prop, r.ID, r.Floor, r.Doc, strings.Join(r.Also, ","))
 		}
 		return
 	}
